@@ -16,6 +16,7 @@ import sys
 
 sys.path.insert(0, os.path.dirname(os.path.abspath(__file__)))
 import harness  # noqa: E402
+import sites  # noqa: E402
 from vlib import cz, clist, cbool  # noqa: E402
 
 LEVEL = "proof"
@@ -117,17 +118,27 @@ def run(ctx):
     ]
     ctx.coq_build("C27/Props.v")
 
+    # static obligation: every Client/ClientTls construction site passes its owner's store
+    ctx.obligations += 1
+    found, problems = sites.scan(ctx.repo)
+    ctx.extra["client_construction_sites"] = {"%s %s %s" % k: v for k, v in found.items()}
+    if problems:
+        ctx.tie_broken("static", "tcp Client construction sites / owner's store", "; ".join(problems))
+    else:
+        ctx.discharged += 1
+        ctx.theorems.append("static:client_sites_pass_owner_store")
+
     rng = ctx.rng
     cases, metas = [], []
 
-    def add(drv, rc, tmo, table, dflt, ticks, kind, live=None):
-        out, info = harness.run_impl(drv, rc, tmo, table, dflt, ticks)
+    def add(drv, rc, tmo, table, dflt, ticks, kind, live=None, own=True):
+        out, info = harness.run_impl(drv, rc, tmo, table, dflt, ticks, own=own)
         nontriv = info["opens"] >= 2 and (any(c for _, c in ticks) or sum(dt for dt, _ in ticks) >= tmo > 0)
         ctx.case({"drv": drv, "rc": rc, "tmo": tmo, "table": table, "dflt": dflt, "ticks": ticks},
                  nontrivial=nontriv, kind=kind)
         cases.append((c_case(drv, rc, tmo, table, dflt, ticks), clist([cz(x) for x in out], "Z")))
         metas.append({"drv": drv, "rc": rc, "tmo": tmo, "table": table, "dflt": dflt, "ticks": ticks,
-                      "info": info, "live": live})
+                      "info": info, "live": live, "own": own})
 
     drivers = ["Bare", "Patron", "Stack"]
     # 1. small-scope exhaustive: every tick sequence of length L over dt in {0,2}, cut in {F,T}
@@ -155,7 +166,7 @@ def run(ctx):
         table = [[rng.choice(names) for _ in range(rng.randint(0, 4))] for _ in range(rng.randint(0, 6))]
         dflt = rng.choice(names)
         ticks = [(rng.choice([0, 0, 1, 1, 2, 3, 9]), rng.random() < 0.2) for _ in range(rng.randint(1, 24))]
-        add(drv, rc, tmo, table, dflt, ticks, "random")
+        add(drv, rc, tmo, table, dflt, ticks, "random", own=rng.random() < 0.5)
     # 3. down-then-up schedules satisfying the premises of reconnect_bounded
     downs = [["CINPROGRESS", "CREFUSED"], ["CREFUSED"], ["CINPROGRESS", "CALREADY", "CALREADY", "CALREADY", "CALREADY"],
              ["COTHER", "COTHER", "CINVAL"], ["CINPROGRESS", "COTHER", "COTHER", "COTHER", "COTHER", "COTHER"]]
@@ -167,6 +178,9 @@ def run(ctx):
         tmo = (lag + 1) * dmax + rng.randint(1, 6)
         # prefix: server down (arbitrary pacing, cuts allowed)
         pre = [(rng.choice([0, 1, 2, 5]), rng.random() < 0.25) for _ in range(rng.randint(0, 12))]
+        if rng.random() < 0.5:    # a stretch serviced far slower than the timeout / a clock jump
+            for _ in range(rng.randint(1, 3)):
+                pre.insert(rng.randint(0, len(pre)), (tmo * rng.choice([1, 2, 3, 5]) + rng.randint(0, 3), False))
         # run the prefix alone to learn how many sockets exist when the server comes up
         dtab = [rng.choice(downs) for _ in range(40)]
         if rng.random() < 0.3:   # start connected then get cut: first socket connects at once
@@ -215,7 +229,7 @@ def run(ctx):
                 thm = "C27.Props.non_reconnectable_never_reopens"
             if why:
                 key = "bare-client-cutoff" if (only_bare and bare_cut(m)) else "reconnect"
-                cand = {"key": key, "driver": m["drv"], "reconnectable": m["rc"], "timeout_ticks": m["tmo"],
+                cand = {"key": key, "driver": m["drv"], "built_by_owner": m.get("own", True), "reconnectable": m["rc"], "timeout_ticks": m["tmo"],
                         "oracle_table": m["table"], "oracle_default": m["dflt"], "ticks": m["ticks"],
                         "observed": info, "why": why, "contradicts": thm}
                 rank = (key != "reconnect", len(m["ticks"]))
@@ -232,7 +246,7 @@ def nonreconn_violation(m):
     ticks = m["ticks"]
     base = None
     for k in range(1, len(ticks) + 1):
-        _, info = harness.run_impl(m["drv"], False, m["tmo"], m["table"], m["dflt"], ticks[:k])
+        _, info = harness.run_impl(m["drv"], False, m["tmo"], m["table"], m["dflt"], ticks[:k], own=m.get("own", True))
         if base is not None:
             if info["opens"] != base:
                 return "non-reconnectable client opened a socket after cut off (tick %d)" % k
